@@ -23,6 +23,7 @@ func checkC11(c *Ctx) {
 	r104(c, "R11.2b rollout-slot-symmetry")
 	r113(c)
 	r114(c)
+	r117(c)
 	// the file a restart reads must reflect every completed command (shared with C12)
 	r122(c, "R11.5 state-file-carries-latest-listing")
 	r123(c, "R11.6 every-mutating-command-snapshots-after")
@@ -223,6 +224,32 @@ func r111(c *Ctx) {
 						c2, d2 := isDecodedField(tl.Call.Args[1])
 						if d1 && d2 && c1[0].Name() == slot.names && c2[0].Name() == "TargetOptions" {
 							ok = true
+							// whether the slot is rebuilt may depend only on the saved list itself (and on earlier steps not failing)
+							for _, ce := range dominatingConds(w.instr.Block()) {
+								if guardIsErrNil(ce) {
+									continue
+								}
+								cm, isCmp := ce.asCmp()
+								okGuard := false
+								if isCmp {
+									x := cm.x
+									if _, isK := cm.x.(*ssa.Const); isK {
+										x = cm.y
+									}
+									if lc, isCall := x.(*ssa.Call); isCall {
+										if b, isB := lc.Call.Value.(*ssa.Builtin); isB && b.Name() == "len" {
+											x = lc.Call.Args[0]
+										}
+									}
+									if ch, isD := isDecodedField(x); isD && len(ch) == 1 && ch[0].Name() == slot.names {
+										okGuard = true
+									}
+								}
+								if !okGuard {
+									ok = false
+									c.ob(rule, "UnmarshalJSON/s."+slot.field+"-rebuild-depends-only-on-ms."+slot.names, w.instr.Pos(), false, true, "the saved "+slot.field+" targets must be restored whenever the saved list is non-empty: a condition on any other saved value (e.g. the split) makes the restored proxy answer later commands differently")
+								}
+							}
 						}
 					}
 				}
@@ -378,21 +405,26 @@ func r114(c *Ctx) {
 // onlyErrNilGuards: the instruction is conditional on nothing but earlier calls having returned a nil error.
 func onlyErrNilGuards(in ssa.Instruction) bool {
 	for _, ce := range dominatingConds(in.Block()) {
-		cm, ok := ce.asCmp()
-		if !ok || cm.op != token.EQL {
-			return false
-		}
-		v := cm.x
-		if isNilConst(v) {
-			v = cm.y
-		} else if !isNilConst(cm.y) {
-			return false
-		}
-		if !isErrorType(v.Type()) {
+		if !guardIsErrNil(ce) {
 			return false
 		}
 	}
 	return true
+}
+
+// guardIsErrNil: the condition edge is `<some error value> == nil` taken.
+func guardIsErrNil(ce condEdge) bool {
+	cm, ok := ce.asCmp()
+	if !ok || cm.op != token.EQL {
+		return false
+	}
+	v := cm.x
+	if isNilConst(v) {
+		v = cm.y
+	} else if !isNilConst(cm.y) {
+		return false
+	}
+	return isErrorType(v.Type())
 }
 
 // readsFieldVia: fn obtains field f of base, directly or through an accessor method of the module.
@@ -409,4 +441,159 @@ func readsFieldVia(fn *ssa.Function, f *types.Var, base ssa.Value) bool {
 		}
 	}
 	return false
+}
+
+// R11.7 What is derived once, when a service object is built (certificate manager, middleware chain), is rebuilt from
+// the SAVED options after a restart. The routing table rewrites some options of installed services in place (a
+// sub-path service inherits the TLS flags of its host's root service), and the saved options carry the rewritten
+// values. So construction may let such a flag decide something only for services the table never rewrites (those on
+// the root path); otherwise the restarted proxy builds a different object than the one that wrote the file.
+func r117(c *Ctx) {
+	const rule = "R11.7 derived-state-ignores-inherited-flags"
+	c.floor(rule, 4)
+	so := c.named("ServiceOptions").Underlying().(*types.Struct)
+	srp := c.method("Service", "servesRootPath")
+	prefixesF := c.field("ServiceOptions", "PathPrefixes")
+	rootPath := c.constant(c.server, "rootPath")
+	isRootTest := func(v ssa.Value) bool {
+		call, ok := v.(*ssa.Call)
+		if !ok {
+			return false
+		}
+		if isCallTo(call.Common(), srp) {
+			return true
+		}
+		if calleeName(call.Common()) == "slices.Contains" && len(call.Call.Args) == 2 {
+			k, isK := call.Call.Args[1].(*ssa.Const)
+			return isK && k.Value != nil && k.Value.ExactString() == rootPath.Value.Value.ExactString() && isLoadOfField(call.Call.Args[0], prefixesF)
+		}
+		return false
+	}
+	// W: option fields the routing table stores into after installation
+	inherited := map[*types.Var]bool{}
+	for i := 0; i < so.NumFields(); i++ {
+		f := so.Field(i)
+		for _, w := range c.writesOfField(f) {
+			rn := recvNamed(outer(w.fn))
+			if rn == nil || rn.Obj().Name() != "ServiceMap" {
+				continue
+			}
+			inherited[f] = true
+			_, notRoot := boolFacts(w.instr, isRootTest)
+			c.ob(rule, "ServiceMap rewrites ServiceOptions."+f.Name()+" only off the root path <- "+fname(w.fn), w.instr.Pos(), notRoot, true, "the table may rewrite the options of an installed service only on the !servesRootPath() branch (root-path services keep the flags they were deployed with)")
+		}
+	}
+	isInherited := func(v ssa.Value) bool {
+		f, _, ok := fieldLoad(v)
+		return ok && inherited[f]
+	}
+	// construction: initialize and every module function it can reach
+	ini := c.method("Service", "initialize")
+	inModule := map[*ssa.Function]bool{}
+	for _, f := range c.proxyFuncs() {
+		inModule[f] = true
+	}
+	seen := map[*ssa.Function]bool{}
+	var order []*ssa.Function
+	var visit func(f *ssa.Function)
+	visit = func(f *ssa.Function) {
+		if seen[f] || !inModule[f] || f.Blocks == nil {
+			return
+		}
+		seen[f] = true
+		order = append(order, f)
+		for _, cs := range callsIn(f) {
+			if callee := cs.common().StaticCallee(); callee != nil {
+				visit(callee)
+			}
+		}
+	}
+	visit(ini)
+	isEffect := func(in ssa.Instruction) bool {
+		switch x := in.(type) {
+		case *ssa.Store, *ssa.MapUpdate, *ssa.Send, *ssa.MakeClosure, *ssa.Go, *ssa.Defer, *ssa.Panic:
+			return true
+		case *ssa.Call:
+			if _, isB := x.Call.Value.(*ssa.Builtin); isB {
+				return false
+			}
+			if isRootTest(x) || strings.HasPrefix(calleeName(x.Common()), "log/slog.") {
+				return false
+			}
+			return true
+		case *ssa.Return:
+			for _, r := range x.Results {
+				if k, isK := r.(*ssa.Const); !isK || k.Value != nil {
+					return true
+				}
+			}
+		}
+		return false
+	}
+	nLoads := 0
+	for _, f := range order {
+		reads := false
+		for _, b := range f.Blocks {
+			for _, in := range b.Instrs {
+				if v, ok := in.(ssa.Value); ok && isInherited(v) {
+					reads = true
+					nLoads++
+					// the flag may only be tested
+					for _, r := range *v.Referrers() {
+						switch x := r.(type) {
+						case *ssa.If, *ssa.DebugRef:
+						case *ssa.UnOp:
+							if x.Op != token.NOT {
+								c.ob(rule, "construction/"+fname(f)+"/inherited-flag-only-tested", r.Pos(), false, true, "an inherited TLS flag read while building the service object flows somewhere other than a branch")
+							}
+						default:
+							c.ob(rule, "construction/"+fname(f)+"/inherited-flag-only-tested", r.Pos(), false, true, "an inherited TLS flag read while building the service object flows somewhere other than a branch (stored, passed on or captured): the object then depends on a value the table rewrites later")
+						}
+					}
+				}
+			}
+		}
+		if !reads {
+			continue
+		}
+		okAll := true
+		var bad ssa.Instruction
+		for _, b := range f.Blocks {
+			conds := dominatingConds(b)
+			on, off := boolFactsOf(conds, isInherited)
+			root, _ := boolFactsOf(conds, isRootTest)
+			for _, in := range b.Instrs {
+				if (on || off) && !root && isEffect(in) {
+					okAll, bad = false, in
+				}
+				// values merged according to the flag
+				if phi, isPhi := in.(*ssa.Phi); isPhi && !(on || off) {
+					same := true
+					for _, e := range phi.Edges[1:] {
+						if e != phi.Edges[0] {
+							same = false
+						}
+					}
+					if same {
+						continue
+					}
+					for i, pred := range b.Preds {
+						_ = i
+						ec := append(append([]condEdge{}, dominatingConds(pred)...), edgeCond(pred, b)...)
+						pon, poff := boolFactsOf(ec, isInherited)
+						proot, _ := boolFactsOf(ec, isRootTest)
+						if (pon || poff) && !proot {
+							okAll, bad = false, in
+						}
+					}
+				}
+			}
+		}
+		pos := f.Pos()
+		if bad != nil && bad.Pos().IsValid() {
+			pos = bad.Pos()
+		}
+		c.ob(rule, "construction/"+fname(f)+"/inherited-flags-matter-only-on-the-root-path", pos, okAll, true, "everything this function does under a test of an inherited TLS flag must also be under 'serves the root path': for a sub-path service the saved flag is the root service's, so a restart would otherwise build a different certificate manager / middleware chain than the running proxy has (with a wildcard host it cannot even be restored)")
+	}
+	c.ob(rule, "construction/reads-an-inherited-flag", ini.Pos(), nLoads >= 1 && len(inherited) >= 2, false, fmt.Sprintf("%d reads of %d inherited fields in %d functions reachable from initialize", nLoads, len(inherited), len(order)))
 }
